@@ -8,6 +8,7 @@ dir_unix.c → dir_rec.c → dir_hl.c → dir_tree_iterator.c → glob.c:scan_di
 false (Sqfs/Witness/C11.lean) — the theorems about that older code are a frozen record in Sqfs/Proofs/C11Pinned/.
 -/
 import Sqfs.Proofs.FsTreeSorted
+import Sqfs.Proofs.FsTreeSortFile
 
 namespace Sqfs.C11
 open Sqfs.FsTree
@@ -108,6 +109,16 @@ theorem pack_order_invariant {e₁ e₂ : List HNode} (h : FPerm e₁ e₂) (hwf
     packOrder true d cfg fnm rootDev e₁ sortfile = packOrder true d cfg fnm rootDev e₂ sortfile := by
   unfold packOrder
   rw [scan_perm_invariant h hwf]
+
+/-- `fstree_sort_files` (gensquashfs `-S`) hands `pack_files` exactly the files of the file list (none lost, none twice), in
+non-descending priority, and the files of one priority in the order they have in the file list (the sort is stable) —
+whatever the sort file says and whatever `fnmatch` does.  Together with `pack_order_invariant`: the order of the file
+data is fixed by file list + sort file. -/
+theorem sort_files_perm_sorted_stable (fnm : Fnm) (rules : List SortRule) (files : List Path) :
+    ((sortFiles fnm rules files).map (·.path)).Perm files ∧
+      (sortFiles fnm rules files).Pairwise (fun a b => a.prio ≤ b.prio) ∧
+      ∀ q : Int, List.Sublist (((sortFiles fnm rules files).filter (fun f => f.prio = q)).map (·.path)) files :=
+  sortFiles_perm_sorted fnm rules files
 
 /-- Inode numbers and the file list are functions of the (sorted) tree alone: `fstree_post_process` — hard-link
 resolution with its link counts, `alloc_inode_num_dfs`, `reorder_hard_links`, `file_list_dfs` — gives the same result
